@@ -20,7 +20,7 @@ ASSUMPTIONS = ["operands' dimensions come from one common dimension set (same le
                "x**y: only congruence of the uninterpreted pow(base, exponent) is used"]
 OUTSIDE = ["more than 4 dimensions", "dimension lengths above 3", "operands with equal letters but different items",
            "IEEE rounding, inf, integer dtypes"]
-VARIANTS = 'second dimension set (same letters and lengths, other items) for add / mul / div / minimum; where= / out= arithmetic; three memory layouts'
+VARIANTS = 'second dimension set (same letters and lengths, other items) for add / mul / div / minimum; where= / out= arithmetic; three memory layouts; numpy scalar on the left (float64 runs)'
 BOUNDS = {
     "quick": dict(universe="abc", lengths=[1, 2], operand_dims="every ordered subset of the universe incl. empty (16 x 16 pairs)",
                   operators="add sub mul div pow minimum maximum; x.k and k.x for + - * /; x**k; neg abs __abs__ sign"),
